@@ -14,6 +14,8 @@ Line protocol (stateless, one case per line):
                 u                  atv.close()
                 a<m>               public member number m of the generated table
                 s | t              push_updater.start() | .stop() on the held object
+                L0 | L1 | L2       atv.listener = None | the object registered last (a new one if none is held) | a new object
+                M0 | M1 | M2       push_updater.listener = None | same object | new object
                 x                  the user drops the device object, keeps the interface objects obtained before
                 p<i><beh>          protocol i's push updater posts an update (beh = the PushListener handler)
   → <outs> N=<notified> C=<calls_made> K=<close log> P=<id:tasks|-> B=<per member 1 blocked/0> S=<push on> R=<raised> I=<inner>
@@ -68,6 +70,12 @@ def parseEv? (w : String) : Option Ev :=
   | ['s'] => some .pushStart
   | ['t'] => some .pushStop
   | ['x'] => some .dropDevice
+  | ['L', '0'] => some (.setListener false)
+  | ['L', '1'] => some (.setListener true)
+  | ['L', '2'] => some (.setListener true)
+  | ['M', '0'] => some (.setPushListener false)
+  | ['M', '1'] => some (.setPushListener true)
+  | ['M', '2'] => some (.setPushListener true)
   | 'r' :: d :: rest =>
     if d.isDigit then do
       let (k, b) ← parseReportTok? (String.ofList rest)
